@@ -215,8 +215,10 @@ def _prefixes(model, depth):
         for ev in model.enabled(w):
             nxt = snapshot(model, w)
             try:
-                model.apply(nxt, ev)
+                obs = model.apply(nxt, ev)
             except Exception:  # noqa: BLE001
+                continue
+            if any(r.get("_cut") for r in (model.check(nxt, ev, obs, hist + (ev,)) or [])):
                 continue
             k = _h(model.canon(nxt))
             if k in seen:
